@@ -64,6 +64,52 @@ def make_routine(present_by_node, rng):
     return compile_routine(schema(root)).routine
 
 
+MODEL_QUEUE = []
+
+
+def queue_model(cr, dct, remove, outcome, out):
+    """remember the case for the batched model correspondence (Lean `addAggregatedResources`)"""
+    if len(MODEL_QUEUE) < 2500:
+        MODEL_QUEUE.append((cr, dct, remove, outcome, out))
+
+
+def model_correspondence(ctx, rng):
+    from .. import model
+
+    if not MODEL_QUEUE:
+        return
+    lines = []
+    for cr, dct, remove, outcome, out in MODEL_QUEUE:
+        d = " ".join("(" + k + "".join(f" ({t} {E.to_sexp(E.sympy_to_tree(B.as_expression(w) if isinstance(w, str) else w))})" for t, w in v.items()) + ")" for k, v in dct.items())
+        lines.append(f"aggregate {1 if remove else 0} {E.croutine_sexp(cr)} ({d})")
+    resp = model.run_driver(lines)
+    for (cr, dct, remove, outcome, out), r in zip(MODEL_QUEUE, resp):
+        ctx.stats["model_vs_impl_compared"] += 1
+        mo = "ok" if r[0] == "ok" else ("error" if r[0] == "err" else str(r[0]))
+        if mo != outcome:
+            ctx.disagreement("add_aggregated_resources vs addAggregatedResources (outcome)", {"aggregation": dct, "remove_decomposed": remove}, mo, outcome)
+            continue
+        if outcome != "ok":
+            continue
+        m = model.decode_croutine(r[1])
+
+        def cmp(node, mn, path):
+            if {k: v.type.value for k, v in node.resources.items()} != {k: v[0] for k, v in mn["resources"].items()}:
+                ctx.disagreement("add_aggregated_resources vs addAggregatedResources (names/types)", {"aggregation": dct, "remove_decomposed": remove, "node": path},
+                                 {k: v[0] for k, v in mn["resources"].items()}, {k: v.type.value for k, v in node.resources.items()})
+                return False
+            for k, v in node.resources.items():
+                verdict, d_ = compare.sem_equal(v.value, mn["resources"][k][1], rng)
+                if verdict == "different":
+                    ctx.disagreement("add_aggregated_resources vs addAggregatedResources (value)", {"aggregation": dct, "remove_decomposed": remove, "node": path, "resource": k},
+                                     E.to_str(mn["resources"][k][1]), {"impl": str(v.value), "at": d_})
+                    return False
+            return all(cmp(c, mc, path + [c.name]) for c, mc in zip(node.children.values(), mn["children"]))
+
+        cmp(out, m, [])
+    MODEL_QUEUE.clear()
+
+
 def check_one(ctx, cr, dct, remove, rng, what):
     from bartiq.transform import add_aggregated_resources
 
@@ -77,6 +123,7 @@ def check_one(ctx, cr, dct, remove, rng, what):
     except Exception as e:
         if cyc and isinstance(e, ValueError):
             ctx.stats["cyclic_rejected"] += 1
+            queue_model(cr, dct, remove, "error", None)
             return True
         ctx.violation("failing-input", f"{what}: aggregation raised {type(e).__name__} on an acyclic dictionary" if not cyc else f"{what}: cyclic dictionary rejected with {type(e).__name__}, not a ValueError",
                       {"aggregation": dct, "remove_decomposed": remove, "resources": {".".join(p) or "root": sorted(n.resources) for p, n in walk(cr)}}, str(e)[:200], None)
@@ -84,6 +131,7 @@ def check_one(ctx, cr, dct, remove, rng, what):
     if cyc:
         ctx.violation("failing-input", f"{what}: a cyclic aggregation dictionary was accepted and a result returned", {"aggregation": dct, "remove_decomposed": remove}, "result", "error")
         return False
+    queue_model(cr, dct, remove, "ok", out)
     for (path, old), (_, new) in zip(walk(cr), walk(out)):
         where = ".".join(path) or "root"
         env = {"N": Fraction(rng.randint(2, 9)), "k": Fraction(rng.randint(2, 7))}
@@ -205,6 +253,7 @@ def run(ctx, widen=False):
             return
         if any(t in dct for v in dct.values() for t in v):
             ctx.nontrivial(("rand", i))
+    model_correspondence(ctx, rng)
 
 
 def replay(payload):
